@@ -345,3 +345,15 @@ c('TimeZoneRef::find_local_time_type', U,
   requires="tz_wf(self.transitions@, self.local_time_types@), *self.extra_rule is None, self.leap_seconds@.len() == 0",
   ensures="r is Ok, exists|k: int| 0 <= k <= self.transitions@.len() && *r->Ok_0 == #[trigger] interval_type(self.transitions@, self.local_time_types@, k) "
           "&& (k == 0 || self.transitions@[k - 1].unix_leap_time <= unix_time) && (k == self.transitions@.len() || unix_time < self.transitions@[k].unix_leap_time)")
+
+# ------------------------------------------------------------------------------------------------
+# C03/C04  zone-aware wrappers, generic over Tz (src/datetime/mod.rs, src/offset/mod.rs) -- Verus (units/datetime.py)
+U = 'verus:datetime'
+c('TimeZone::from_utc_datetime', U, ensures="r.datetime == *utc")   # provided method; its real default body is proved as TimeZone__from_utc_datetime
+c('DateTime::timezone', U, ensures="true")
+c('DateTime::with_timezone', U, ensures="r.datetime == self.datetime")
+c('DateTime::to_utc', U, ensures="r.datetime == self.datetime")
+c('DateTime::checked_add_signed', U, requires="dtwf(self.datetime), td_inv(rhs)",
+  ensures="dt_add_post(self.datetime, td_ns(rhs), match r { Some(d) => Some(d.datetime), None => None })")
+c('DateTime::checked_sub_signed', U, requires="dtwf(self.datetime), td_inv(rhs)",
+  ensures="dt_add_post(self.datetime, -td_ns(rhs), match r { Some(d) => Some(d.datetime), None => None })")
